@@ -166,6 +166,20 @@ def replay_file(report, work, vh, prelude, path, predicates=None):
     return c
 
 
+def regression_cases():
+    """The witnesses of every REPAIRED finding (known_findings.json, status fixed) that is a plain (query, input) pair: permanent cases
+    of the evaluation checks, so that the return of a repaired defect is a violation like any other."""
+    out = []
+    for k in vc.load_known():
+        w = k.get("witness") or {}
+        if k.get("status") == "fixed" and isinstance(w.get("query"), str) and "input" in w and "rep" not in w and "cfi" not in w["query"]:
+            try:
+                out.append({"src": w["query"], "inputs": [jqgen.V(w["input"])], "name": k["id"]})
+            except Exception:
+                pass
+    return out
+
+
 # ---------------------------------------------------------------------------
 # the corpus: queries of cli/test.yaml that take plain JSON inputs
 
